@@ -29,7 +29,7 @@ from .absval import (
     BoundV, CharSet, ClassV, EnumV, FuncV, HObj, IntSet, LambdaV, OneOf, Opaque, Ref, SeqStr, Term, Text, Unknown, is_concrete, new_text,
 )
 from .core import AnalysisError
-from .pymodel import ClassInfo, FuncInfo, ModuleInfo, PyModel
+from .pymodel import ClassInfo, FuncInfo, ModuleInfo, PyModel, walk_no_nested
 
 
 class Raised:
@@ -366,6 +366,31 @@ class Interp:
                 return self.bind(self.eval(e.comparators[0], s), g)
             return self.bind(self.eval(e.left, st), f)
         return [(b, s) for b, s in self.cond(e, st)]
+
+    def e_Yield(self, e, st):
+        def f(v, s):
+            acc = s.locals.get("__yield__")
+            if isinstance(acc, Ref):
+                s.obj(acc).items.append(v)
+            else:
+                s.note("yield outside a materialised generator")
+            return [(None, s)]
+        if e.value is None:
+            return f(None, st)
+        return self.bind(self.eval(e.value, st), f)
+
+    def e_YieldFrom(self, e, st):
+        def f(v, s):
+            acc = s.locals.get("__yield__")
+            items = self.B.iter_values(self, v, s)
+            if isinstance(acc, Ref) and items is not None:
+                s.obj(acc).items.extend(items)
+            else:
+                s.note("yield from an abstract iterable")
+                if isinstance(acc, Ref):
+                    s.obj(acc).items.append(Unknown("yield from"))
+            return [(None, s)]
+        return self.bind(self.eval(e.value, st), f)
 
     def e_IfExp(self, e, st):
         out: Results = []
@@ -734,6 +759,52 @@ class Interp:
                 out.extend(self.exec_block(stmt.body if b else stmt.orelse, s))
         return out
 
+    def s_Match(self, stmt, st):
+        """match on value / singleton / wildcard / or-patterns and simple captures; anything else is imprecise."""
+        def pat_conds(p, subj_expr):
+            if isinstance(p, ast.MatchValue):
+                return ast.Compare(left=subj_expr, ops=[ast.Eq()], comparators=[p.value])
+            if isinstance(p, ast.MatchSingleton):
+                return ast.Compare(left=subj_expr, ops=[ast.Is()], comparators=[ast.Constant(value=p.value)])
+            if isinstance(p, ast.MatchOr):
+                subs = [pat_conds(x, subj_expr) for x in p.patterns]
+                if any(x is None for x in subs):
+                    return None
+                return ast.BoolOp(op=ast.Or(), values=subs)
+            if isinstance(p, ast.MatchAs) and p.pattern is None:
+                return ast.Constant(value=True)
+            return None
+
+        out = []
+        pending = [st]
+        for case in stmt.cases:
+            test = pat_conds(case.pattern, stmt.subject)
+            if test is None:
+                for s in pending:
+                    s.note(f"match pattern {ast.unparse(case.pattern)[:40]} not modelled")
+                    out.append((s, "fall", None))
+                return out
+            if case.guard is not None:
+                test = ast.BoolOp(op=ast.And(), values=[test, case.guard])
+            test = ast.fix_missing_locations(ast.copy_location(test, stmt))
+            nxt = []
+            for s in pending:
+                for b, s2 in self.cond(test, s):
+                    if isinstance(b, Raised):
+                        out.append((s2, "raise", b))
+                    elif b:
+                        if isinstance(case.pattern, ast.MatchAs) and case.pattern.name:
+                            for v, s3 in self.eval(stmt.subject, s2):
+                                s3.locals[case.pattern.name] = v
+                                out.extend(self.exec_block(case.body, s3))
+                        else:
+                            out.extend(self.exec_block(case.body, s2))
+                    else:
+                        nxt.append(s2)
+            pending = nxt
+        out.extend((s, "fall", None) for s in pending)
+        return out
+
     def s_Break(self, stmt, st):
         return [(st, "break", None)]
 
@@ -900,6 +971,8 @@ class Interp:
         if isinstance(fv, Term):
             kw = tuple(sorted((k, self.B.freeze_term(self, v, st)) for k, v in kwargs.items()))
             return [(Term("call", (fv,) + tuple(self.B.freeze_term(self, a, st) for a in args) + ((("kw",) + kw,) if kw else ())), st)]
+        if isinstance(fv, Opaque) and fv.cls in self.B.EXT_CALLS:
+            return self.B.EXT_CALLS[fv.cls](self, args, kwargs, st, node)
         if isinstance(fv, Opaque):
             hook = self.probes.get("call:" + fv.cls) or self.probes.get("call:*")
             if hook:
@@ -997,11 +1070,18 @@ class Interp:
                     res = self.eval(v[1], st)
                     frame[n] = res[0][0] if len(res) == 1 else Unknown("default")
             st.frames[-1] = frame
+            is_gen = any(isinstance(n, (ast.Yield, ast.YieldFrom)) for n in walk_no_nested(fi.node))
+            if is_gen:
+                # generators are materialised: the call yields the list of produced values (laziness is not modelled)
+                frame["__yield__"] = st.alloc(HObj("list"))
             out: Results = []
             for s, o, v in self.exec_block(fi.node.body, st):
+                acc = s.frames[-1].get("__yield__") if is_gen else None
                 s.frames.pop()
                 if o == "raise":
                     out.append((v, s))
+                elif is_gen:
+                    out.append((acc, s))
                 elif o == "return":
                     out.append((v, s))
                 else:
